@@ -487,6 +487,12 @@ H("conn_discard_space_native", ["C12"], "replay-only", "connection::discard_spac
   [("x", "u8")], 4, [], ["Connection::discard_space", "Connection::remove_in_flight"], "native replay body of E2 query e2_discard_space_iteration")
 H("streams_open_limit_native", ["C05"], "replay-only", "connection::streams::open_limit_native",
   [("limit", "u8")], 4, [], ["Streams::open"], "native replay body of E2 query e2_streams_open_limit")
+H("streams_max_stream_data_limit_native", ["C06"], "replay-only", "connection::streams::max_stream_data_limit_native",
+  [("max_remote", "u8"), ("index", "u64")], 4, [], ["StreamsState::received_max_stream_data", "Streams::accept"], "native replay body of E2 query e2_received_max_stream_data_limit")
+H("conn_retry_early_frames_native", ["C17", "C01"], "replay-only", "connection::retry_early_frames_native",
+  [("x", "u8")], 4, [], ["Connection::process_decrypted_packet"], "native replay body of E2 slice query e2_retry_requeues_early_frames_slice")
+H("conn_unprotected_packet_native", ["C04"], "replay-only", "connection::unprotected_packet_native",
+  [("mode", "u8")], 4, [], ["Connection::handle_packet"], "native replay body of E2 slice query e2_handle_packet_unprotected_slice")
 H("conn_close_reason_early_native", ["C08"], "replay-only", "connection::close_reason_early_native",
   [("x", "u8")], 4, [], ["Connection::close", "Connection::poll_transmit", "frame::Close::encode"], "native replay body of E2 slice query e2_poll_transmit_close_reason_slice")
 H("conn_path_response_native", ["C15", "C07"], "replay-only", "connection::path_response_native",
